@@ -252,6 +252,9 @@ func (c *Chain) storageAbs(users []string) (stState, []string) {
 // deleted (what was not released stays in the account)
 var seenGaugeAccs []string
 
+// escrow accounts of gauges seeded through genesis (tracked from the first record on)
+var seededGaugeAccs []string
+
 func noteGaugeAcc(a string) {
 	for _, x := range seenGaugeAccs {
 		if x == a {
@@ -341,7 +344,9 @@ type storageGen struct {
 	ips       []string
 	blocks    int
 	lastBuy   *sttypes.MsgBuyStorage
-	signSoon  int                  // forms profile: the next few operations are signatures on open forms (after the quorum parameters moved)
+	signSoon  int      // forms profile: the next few operations are signatures on open forms (after the quorum parameters moved)
+	out       *Emitter // for side records (name resolutions put to the rns model)
+	hi        int
 	lastPost  *sttypes.MsgPostFile // the last pay-once posting and the height it was sent at
 	lastPostH int64
 	burst     int        // how many more equal purchases follow at once (three and more deposits into one gauge id)
@@ -487,6 +492,9 @@ func (g *storageGen) next() (sdk.Msg, map[string]interface{}, func(pre, post stS
 		}
 		msg := &sttypes.MsgBuyStorage{Creator: rawCreator, ForAddress: rawFor, DurationDays: days, Bytes: byts, PaymentDenom: denom, Referral: ref}
 		g.lastBuy = msg
+		if g.out != nil && ref != "" {
+			c.emitResolve(g.out, g.hi, g.blocks, ref, g.users)
+		}
 		op := map[string]interface{}{"buyStorage": map[string]interface{}{"creator": creator, "forAddress": forAddr, "durationDays": days, "bytes": byts, "denom": denom, "referral": refJ, "jklPrice": g.jklPriceRaw(), "gaugeId": "", "gaugeAcc": "", "creatorRaw": rawCreator, "forAddressRaw": rawFor}}
 		return msg, op, fillGauge("buyStorage", new(big.Int).Add(big.NewInt(c.T.UnixNano()), big.NewInt(days*86400_000_000_000))) // time.Duration(days)*24h wraps in int64
 	case k < m.buy+m.post:
@@ -836,12 +844,16 @@ func runStorage(profile string, seed int64, histories, steps int, out *Emitter) 
 		pr := polRatios[r.Intn(len(polRatios))]
 		var seeded map[string]*dataFile
 		noGauges := profile == "proofs" && hi%4 == 1
+		chunk := mix.chunk
+		if hi%5 == 3 && (profile == "proofs" || profile == "storage") {
+			chunk = 2048 // larger than the compiled-in default (1024): nothing may take the default for the chain's value
+		}
 		mut := func(a *app.JackalApp, gs app.GenesisState, users []sdk.AccAddress) {
 			cdc := a.AppCodec()
 			sg := sttypes.DefaultGenesis()
 			sg.Params.ProofWindow = mix.proofWindow + int64(r.Intn(4))
 			sg.Params.CheckWindow = mix.checkWindow + int64(r.Intn(5))
-			sg.Params.ChunkSize = mix.chunk
+			sg.Params.ChunkSize = chunk
 			sg.Params.PolRatio, sg.Params.ReferralCommission = pr[0], pr[1]
 			sg.Params.AttestFormSize = []int64{1, 1, 2, 2, 3, 4}[r.Intn(6)]
 			sg.Params.AttestMinToPass = int64(r.Intn(int(sg.Params.AttestFormSize) + 1))
@@ -854,9 +866,9 @@ func runStorage(profile string, seed int64, histories, steps int, out *Emitter) 
 				// files paid once whose term ran out long ago (as an exported genesis of an old chain carries
 				// them): nothing removes them, providers may go on proving them
 				for n := 1 + r2.Intn(2); n > 0; n-- {
-					data := make([]byte, 1+r2.Intn(int(3*mix.chunk)))
+					data := make([]byte, 1+r2.Intn(int(3*chunk)))
 					r2.Read(data)
-					df := mkDataFile(data, mix.chunk)
+					df := mkDataFile(data, chunk)
 					seeded[hex.EncodeToString(df.root)] = df
 					sg.FileList = append(sg.FileList, sttypes.UnifiedFile{Merkle: df.root, Owner: users[r2.Intn(len(users))].String(), Start: 0,
 						Expires: []int64{1, 3, 20, 60}[r2.Intn(4)], FileSize: int64(len(data)), ProofInterval: sg.Params.ProofWindow, ProofType: 0,
@@ -881,6 +893,24 @@ func runStorage(profile string, seed int64, histories, steps int, out *Emitter) 
 				bg.Supply = bg.Supply.Add(sdk.NewInt64Coin("ujkl", total))
 				gs[banktypes.ModuleName] = cdc.MustMarshalJSON(&bg)
 			}
+			if profile == "payments" && hi%4 == 3 {
+				// more live payment gauges than one listing page holds, each escrow account funded with what its gauge
+				// records (a genesis exported from a grown network right after the deposits)
+				var bg banktypes.GenesisState
+				cdc.MustUnmarshalJSON(gs[banktypes.ModuleName], &bg)
+				for n := 0; n < 104; n++ {
+					id := sha256.Sum256([]byte(fmt.Sprintf("seeded-gauge-%04d", n)))
+					amt := int64(50_000 + 137*n)
+					pg := sttypes.PaymentGauge{Id: id[:], Start: time.Unix(genesisUnix, 0).UTC(), End: time.Unix(genesisUnix, 0).UTC().Add(time.Duration(30+n) * 24 * time.Hour),
+						Coins: sdk.NewCoins(sdk.NewInt64Coin("ujkl", amt))}
+					sg.PaymentGauges = append(sg.PaymentGauges, pg)
+					acc, _ := sttypes.GetGaugeAccount(pg)
+					seededGaugeAccs = append(seededGaugeAccs, acc.String())
+					bg.Balances = append(bg.Balances, banktypes.Balance{Address: acc.String(), Coins: pg.Coins})
+					bg.Supply = bg.Supply.Add(pg.Coins...)
+				}
+				gs[banktypes.ModuleName] = cdc.MustMarshalJSON(&bg)
+			}
 			if noGauges {
 				// everybody holds a plan from genesis: files are posted against plans, no gauge ever exists
 				for _, u := range users {
@@ -899,9 +929,10 @@ func runStorage(profile string, seed int64, histories, steps int, out *Emitter) 
 		if hi%2 == 1 {
 			genesisPoorUsers = 1 // an account that can afford small prices only: transfers that fail half-way through a handler
 		}
+		seededGaugeAccs = nil
 		c := NewChain(mix.users, []string{"ujkl", "utest"}, mut)
-		seenGaugeAccs = nil
-		g := &storageGen{c: c, r: r, data: map[string]*dataFile{}, mix: mix, qr: rand.New(rand.NewSource(seed*7919 + int64(hi) + 17)), noGauges: noGauges}
+		seenGaugeAccs = append([]string{}, seededGaugeAccs...)
+		g := &storageGen{c: c, r: r, data: map[string]*dataFile{}, mix: mix, qr: rand.New(rand.NewSource(seed*7919 + int64(hi) + 17)), noGauges: noGauges, out: out, hi: hi}
 		for _, u := range c.Users {
 			g.users = append(g.users, u.String())
 		}
